@@ -139,8 +139,10 @@ class CallCtx:
         if root in (self.self_name, self.cls_name):
             return None
         # function-local imports
-        for n in walk_own(self.f.node):
-            if isinstance(n, ast.ImportFrom):
+        if getattr(self, "_local_imports", None) is None:
+            self._local_imports = [n for n in walk_own(self.f.node) if isinstance(n, ast.ImportFrom)]
+        for n in self._local_imports:
+            if True:
                 for a in n.names:
                     if (a.asname or a.name) == root:
                         target = self.module._abs(n.level, n.module)
